@@ -108,6 +108,15 @@ def _random_stratum(ctx, name, cfg, n, max_atoms, closure_ok=True):
                         except Exception:  # noqa: BLE001
                             pass
         ctx.shape("pyin:history-prelude")
+        # probes right after that history: the same literals, now on python_version, merged with comparison atoms
+        for lst in MW.PYIN_LISTS:
+            for op in ("in", "not in"):
+                a = ["m", f'python_version {op} "{lst}"']
+                for b, glue in ((["m", 'python_full_version >= "3.8.1"'], "and"), (["m", 'python_full_version < "3.9.3"'], "or"),
+                                (["m", 'python_version >= "3.9"'], "and")):
+                    _run_tree(ctx, [glue, a, b])
+                    _run_tree(ctx, [glue, b, a])
+        ctx.shape("pyin:probes-after-history")
     closure = []
     t0 = ctx.elapsed()
     limit = (22 if ctx.tier == "quick" else 200) * (1.0 if name == "main" else 0.35)
